@@ -367,6 +367,32 @@ def run(res, tier):
     from .C05 import clause_lookup_rules
     clause_lookup_rules(res, fx, 'DELIVERY')        # the snapshot and the mark traversals use the literal-lookup fast path: it must name the nodes the patterns match
     match_recheck_rule(res, fx, 'DELIVERY')       # the initial fetch after a subscription uses the same traversal: conspiring patterns put unsubscribed nodes into the mirror
+    # ---------------------------------------------------------------------------------- round 5: COUNT-DECIDES
+    res.rule('COUNT-DECIDES', 'GetDataNodeSubscribersTableFromPool: the session\'s entry is taken out of a node\'s subscriber table (GetWithRemove) only under a test of the very count that would '
+                              'otherwise be stored (GetWithPut\'s count argument): a session with several matching subscriptions keeps its mark until the last one goes', floor=1)
+    gf = [g for g in fx.funcs.values() if g.full and g.q == SRS + '::GetDataNodeSubscribersTableFromPool']
+    if not gf:
+        raise AnalysisBroken('COUNT-DECIDES: GetDataNodeSubscribersTableFromPool has no analysed body')
+    gf = gf[0]
+    puts5 = P.calls(gf, r'::GetWithPut$')
+    rems5 = P.calls(gf, r'::GetWithRemove$')
+    if not puts5 or not rems5:
+        raise AnalysisBroken('COUNT-DECIDES: GetWithPut / GetWithRemove not found')
+    cnt = set(x.get('d') for pc in puts5 if len(pc.args()) >= 3 for x in pc.args()[2].walk() if x['k'] == 'DeclRefExpr' and x.get('d') is not None)      # GetWithPut(table, key, VALUE, …)
+    if not cnt:
+        raise AnalysisBroken('COUNT-DECIDES: the count argument of GetWithPut is not a local')
+    for (i5, rc) in enumerate(rems5):
+        from msa import guards as G5
+        reads = set()
+        for (a_, t_) in G5.atoms_at(gf, rc):
+            for x in a_.walk():
+                if x['k'] == 'DeclRefExpr' and x.get('d') is not None:
+                    reads.add(x['d'])
+        ok5 = bool(cnt & reads)
+        res.ob('COUNT-DECIDES', gf.where(rc), 'the entry is removed only where the new count was tested', ok5, function=gf.q, key='COUNT-DECIDES|%s|%d' % (gf.q, i5),
+               message='GetDataNodeSubscribersTableFromPool removes the session\'s entry without testing the count it has just computed: dropping ONE of two overlapping subscriptions of a session takes '
+                       'its mark off every node both match, so overwrites and removals of those nodes are never reported to it again although a subscription still matches (the mirror keeps stale '
+                       'payloads and removed nodes)')
     res.explanation = ('Static decision of the structural half of subscriber convergence: payload writes, attachment and removal of nodes are each paired with the notification that tells subscribers, in the order '
                        'that keeps the per-node subscriber marks valid while the notification walks them; the subscription table and the per-node reference marks are changed together with opposite, path-identical '
                        'traversals (+1 / -1 / remove-all); a removal is never queued behind a set of the same path in one update. Convergence over histories, filter enter/leave semantics and batching are not decided.')
